@@ -534,6 +534,13 @@ class X86Target:
             hi = ((0x4063 + k) << 48) | ((0xDEF0 - 0x111 * k) << 32) | (0x42700011 + 0x00021234 * k)
         return lo | (hi << 64)
 
+    _XMM = {}
+
+    def _xmm(self, variant):
+        if variant not in self._XMM:
+            self._XMM[variant] = tuple(self.xmm_sentinel(k, variant) for k in range(16))
+        return self._XMM[variant]
+
     def prepare(self, inst):
         """-> prep dict (see derive) or raises Unclassified"""
         from vf.gen import insgen
@@ -580,7 +587,7 @@ class X86Target:
                     g.append(self.ptr(k, 0))
                 else:
                     g.append(X86_ENT[k])
-            st = {"g": g, "flags": 0x202 if variant == 0 else 0xAC3, "x": [self.xmm_sentinel(k, variant) for k in range(16)]}
+            st = {"g": g, "flags": 0x202 if variant == 0 else 0xAC3, "x": list(self._xmm(variant))}
             patches = []
             if cid == "Ret":
                 patches.append((g[4] - self.hello["data_base"], landing))
@@ -973,8 +980,10 @@ def worker(p, shard, arch, exe, hello):
     import gc
     from vf.gen import insgen
     from vf.core import cpu_limit, CpuTimeout
-    # a forked worker that lets the cyclic GC walk the inherited heap copies every (huge) page of it: no cycles are made here
-    gc_was = gc.isenabled()
+    # a forked worker that lets the cyclic GC walk the inherited heap copies every page of it (copy on write); no reference
+    # cycles are created here, so collection is switched off (for good in a pool process, for the call in the main process)
+    import multiprocessing
+    gc_was = gc.isenabled() and multiprocessing.current_process().name == "MainProcess"
     gc.disable()
     target = get_target(arch)
     if arch == "x86_64":
